@@ -30,6 +30,7 @@ type Cfg struct {
 	Siblings    bool    `json:"siblings"`     // schema $ref holders with sibling keywords
 	HTTP        bool    `json:"http"`         // allow http documents
 	RootElems   bool    `json:"rootelems"`    // root has parameters/responses sections
+	SelfIDs     bool    `json:"selfids"`      // bare-schema documents carry their own URL as id (published schemas)
 }
 
 // DrawCfg draws a swarm configuration.
@@ -451,6 +452,9 @@ func Generate(r *sim.RNG, cfg Cfg) *model.World {
 			doc := g.schema(u, 0, find(model.KSchema, u, ""), true)
 			if _, isRef := doc["$ref"]; isRef || len(doc) == 0 {
 				doc = g.leaf()
+			}
+			if cfg.SelfIDs {
+				doc["id"] = u
 			}
 			if len(s.defs) > 0 {
 				defs := map[string]interface{}{}
